@@ -67,12 +67,26 @@ func parseTagAndLength(bytes []byte) (r tagAndLen, off int, e error) {
 }
 
 func parseBitString(bytes []byte) (r BitString, e error) {
+	// X.690 8.6.2: an initial octet 0..7 giving the number of unused bits,
+	// which must be zero if there are no subsequent octets
+	if len(bytes) == 0 {
+		e = fmt.Errorf("zero length BIT STRING")
+		return r, e
+	}
+	if bytes[0] > 7 || (len(bytes) == 1 && bytes[0] != 0) {
+		e = fmt.Errorf("invalid unused bits of BIT STRING")
+		return r, e
+	}
 	r.BitLength = uint64((len(bytes)-1)*8 - int(bytes[0]))
 	r.Bytes = bytes[1:]
 	return
 }
 
 func parseInt64(bytes []byte) (r int64, e error) {
+	if len(bytes) == 0 {
+		e = fmt.Errorf("zero length integer")
+		return r, e
+	}
 	if len(bytes) > 8 {
 		e = fmt.Errorf("out of range of int64")
 		return r, e
@@ -148,6 +162,9 @@ func ParseField(v reflect.Value, bytes []byte, params fieldParameters) error {
 	}
 	switch val := v; val.Kind() {
 	case reflect.Bool:
+		if tal.len < 1 {
+			return fmt.Errorf("zero length BOOLEAN")
+		}
 		if parsedBool, parse_err := parseBool(bytes[talOff]); err != nil {
 			return parse_err
 		} else {
